@@ -1,13 +1,581 @@
 /-
   C16/Theorems — the ledger for property C16.  Every `theorem` in this file is audited
   (`#print axioms` ⊆ {propext, Classical.choice, Quot.sound}) on every run.
+
+  Deviation regions are the SAME decidable predicates the driver prints (`Driver.devNum`, …): a theorem
+  `… → Driver.devNum v t = [] → model = spec` says the code meets the property text outside the listed
+  regions; each region has a kernel-checked witness below.
 -/
-import OttoVerif.C16.Spec
+import OttoVerif.C16.Lemmas
+import OttoVerif.C16.Driver
 namespace OttoVerif.C16.Thm
-open OttoVerif.F64 OttoVerif.C16
+open OttoVerif.F64 OttoVerif.C16 OttoVerif.C16.Driver OttoVerif.C16.Lem
+
+/-- doubles as decoded from 64 bits: significand below 2^53 -/
+def WFf : FV → Prop
+  | .fin _ m _ => m < 2^53
+  | _ => True
+
+/-- Go's static types bound the payload of a number Value -/
+def WF : Num → Prop
+  | .int k i => k.lo ≤ i ∧ i ≤ k.hi
+  | .f32 x => WFf x
+  | .f64 x => WFf x
 
 /-- same Go type in, same value out (runtime.go:216) -/
 theorem convertNumeric_same_type (v : Num) : convertNumeric v v.ty = .ok v := by
   simp [convertNumeric]
+
+theorem lo_le_hi (k : IK) : k.lo ≤ k.hi := by cases k <;> decide
+
+theorem lo_ge (k : IK) : -(2^63 : Int) ≤ k.lo := by cases k <;> decide
+theorem hi_le (k : IK) : k.hi ≤ (2^64 : Int) - 1 := by cases k <;> decide
+theorem hi_signed (k : IK) (h : k.signed = true) : k.hi ≤ (2^63 : Int) - 1 := by cases k <;> simp_all [IK.signed] <;> decide
+theorem lo_unsigned (k : IK) (h : k.signed = false) : k.lo = 0 := by cases k <;> simp_all [IK.signed] <;> decide
+
+/-- the integer→integer arm of convertNumeric is an exact range check, for every source signedness -/
+theorem convertFromInt_int (srcSigned : Bool) (i : Int) (k : IK)
+    (hsrc : if srcSigned then i ≤ 2^63 - 1 else 0 ≤ i) :
+    convertFromInt srcSigned i (.i k) = if k.lo ≤ i ∧ i ≤ k.hi then .ok (.int k i) else .rangeErr := by
+  have h1 := lo_ge k
+  have h2 := hi_le k
+  cases srcSigned <;> cases hk : k.signed <;> simp only [convertFromInt, hk, overflows] <;>
+    simp only [Bool.false_eq_true, if_false, if_true, Bool.or_eq_true, decide_eq_true_eq] at *
+  · -- unsigned → unsigned
+    have := lo_unsigned k hk
+    by_cases h : k.lo ≤ i ∧ i ≤ k.hi
+    · have : ¬ (i < k.lo ∨ k.hi < i) := by omega
+      simp [h, this]
+    · have : (i < k.lo ∨ k.hi < i) := by omega
+      simp [h, this]
+  · -- unsigned → signed
+    have := hi_signed k hk
+    by_cases h : k.lo ≤ i ∧ i ≤ k.hi
+    · have : ¬ (i > 2^63 - 1 ∨ (i < k.lo ∨ k.hi < i)) := by omega
+      simp only [h, this, if_false, and_self, if_true]
+    · have : (i > 2^63 - 1 ∨ (i < k.lo ∨ k.hi < i)) := by omega
+      simp only [h, this, if_false, if_true]
+  · -- signed → unsigned
+    have := lo_unsigned k hk
+    by_cases h0 : i < 0
+    · have : ¬ (k.lo ≤ i ∧ i ≤ k.hi) := by omega
+      simp [h0, this]
+    · by_cases h : k.lo ≤ i ∧ i ≤ k.hi
+      · have : ¬ (i < k.lo ∨ k.hi < i) := by omega
+        simp [h0, h, this]
+      · have : (i < k.lo ∨ k.hi < i) := by omega
+        simp [h0, h, this]
+  · -- signed → signed
+    by_cases h : k.lo ≤ i ∧ i ≤ k.hi
+    · have : ¬ (i < k.lo ∨ k.hi < i) := by omega
+      simp [h, this]
+    · have : (i < k.lo ∨ k.hi < i) := by omega
+      simp [h, this]
+
+/-- C16.numeric_exact, integer-kinded sources: for every Go integer payload and EVERY numeric target type
+    the call path converts exactly or throws RangeError, outside the region `call_int_to_float_rounds`. -/
+theorem numeric_exact_int_source (k : IK) (i : Int) (t : NT) (hwf : WF (.int k i))
+    (hdev : devNum (.int k i) t = []) :
+    convertNumeric (.int k i) t = Spec.convertNumeric (.int k i) t := by
+  simp only [WF] at hwf
+  cases t with
+  | i k' =>
+    by_cases hk : k = k'
+    · subst hk
+      simp [convertNumeric, Num.ty, Spec.convertNumeric, Spec.exactInt?, hwf]
+    · have hne : (Num.int k i).ty ≠ NT.i k' := by simp [Num.ty, hk]
+      have hsrc : if k.signed then i ≤ 2^63 - 1 else 0 ≤ i := by
+        cases hs : k.signed
+        · have := lo_unsigned k hs; simp; omega
+        · have := hi_signed k hs; simp; omega
+      simp only [convertNumeric, hne, if_false, Spec.convertNumeric, Spec.exactInt?]
+      exact convertFromInt_int k.signed i k' hsrc
+  | f64 =>
+    simp only [devNum, Num.ty] at hdev
+    simp only [convertNumeric, Num.ty, convertFromInt, Spec.convertNumeric]
+    by_cases hs : Spec.sameNumber (.int k i) (Spec.asF64 (.int k i)) = true
+    · simp [Spec.asF64] at hs; simp [hs]
+    · simp [hs] at hdev
+  | f32 =>
+    simp only [devNum, Num.ty] at hdev
+    simp only [convertNumeric, Num.ty, convertFromInt, Spec.convertNumeric]
+    by_cases hs : Spec.sameNumber (.int k i) (toF32 (Spec.asF64 (.int k i))) = true
+    · simp [Spec.asF64] at hs; simp [hs]
+    · simp [hs] at hdev
+
+theorem eqNum_refl_nonNaN (x : FV) (h : isNaN x = false) : eqNum x x = true := by
+  cases x with
+  | nan => simp [isNaN] at h
+  | inf s => simp [eqNum, cmpReal]
+  | fin s m e => simp [eqNum, cmpReal]
+
+/-- C16.numeric_exact, float sources into float targets: exact or RangeError outside
+    `call_f64_to_f32_rounds` (for all doubles, no canonicity needed). -/
+theorem numeric_exact_float_to_float (v : Num) (t : NT) (hv : ∀ k i, v ≠ .int k i) (ht : ∀ k, t ≠ .i k)
+    (hdev : devNum v t = []) : convertNumeric v t = Spec.convertNumeric v t := by
+  cases v with
+  | int k i => exact absurd rfl (hv k i)
+  | f64 x =>
+    cases t with
+    | i k => exact absurd rfl (ht k)
+    | f64 => simp [convertNumeric, Num.ty, Spec.convertNumeric]
+    | f32 =>
+      simp only [devNum, Num.ty] at hdev
+      simp only [convertNumeric, Num.ty, Spec.convertNumeric, overflowFloat32]
+      by_cases ho : (lt maxF32 (abs x) && !isInf x) = true
+      · simp [ho]
+      · simp only [overflowFloat32, ho] at hdev
+        by_cases hs : Spec.sameNumber (.f64 x) (toF32 x) = true
+        · simp [ho, hs]
+        · simp [hs] at hdev
+  | f32 x =>
+    cases t with
+    | i k => exact absurd rfl (ht k)
+    | f64 => simp [convertNumeric, Num.ty, Spec.convertNumeric]
+    | f32 => simp [convertNumeric, Num.ty, Spec.convertNumeric]
+
+/-- the float→integer arm: Go's `int64(f)`/`float64(i64) != f` round trip accepts exactly the doubles that
+    denote an integer in int64 range, and the integer it yields is that integer -/
+theorem float_to_int_core (x : FV) (k : IK) (hwf : WFf x)
+    (hdev : k.signed = false → ∀ i, Spec.exactInt? (.f64 x) = some i → ¬ ((2^63 : Int) ≤ i ∧ i ≤ k.hi)) :
+    (if eqNum (ofInt (goInt64 x)) x then convertFromInt true (goInt64 x) (.i k) else (.rangeErr : Res Num)) =
+    Spec.convertNumeric (.f64 x) (.i k) := by
+  simp only [Spec.convertNumeric]
+  cases x with
+  | nan =>
+    have h : eqNum (ofInt (goInt64 .nan)) .nan = false := by
+      show eqNum (ofInt (-(2^63))) .nan = false
+      rw [ofInt_m63]; rfl
+    rw [h]; simp [Spec.exactInt?]
+  | inf s =>
+    have h : eqNum (ofInt (goInt64 (.inf s))) (.inf s) = false := by
+      show eqNum (ofInt (-(2^63))) (.inf s) = false
+      rw [ofInt_m63]; cases s <;> rfl
+    rw [h]; simp [Spec.exactInt?]
+  | fin s m e =>
+    simp only [WFf] at hwf
+    by_cases he : 0 ≤ e
+    · obtain ⟨en, rfl⟩ := Int.eq_ofNat_of_zero_le he
+      obtain ⟨hti, hin, hout⟩ := big_case s m en hwf
+      have hint : isIntegral m (en : Int) = true := by simp [isIntegral]
+      simp only [Spec.exactInt?, hint, if_true]
+      by_cases hr : (-(2^63 : Int) ≤ truncInt (.fin s m (en : Int)) ∧ truncInt (.fin s m (en : Int)) < 2^63)
+      · obtain ⟨hg, heq⟩ := hin hr
+        rw [hg, heq, if_pos rfl]
+        exact convertFromInt_int true _ k (by simp; omega)
+      · obtain ⟨hg, heq⟩ := hout hr
+        rw [hg, heq]
+        simp only [Bool.false_eq_true, if_false]
+        have h1 := lo_ge k
+        by_cases hs : k.signed = true
+        · have := hi_signed k hs
+          have : ¬ (k.lo ≤ truncInt (.fin s m (en : Int)) ∧ truncInt (.fin s m (en : Int)) ≤ k.hi) := by omega
+          simp [this]
+        · have hs' : k.signed = false := by simpa using hs
+          have hlo := lo_unsigned k hs'
+          have hd := hdev hs' (truncInt (.fin s m (en : Int))) (by simp [Spec.exactInt?, hint])
+          have : ¬ (k.lo ≤ truncInt (.fin s m (en : Int)) ∧ truncInt (.fin s m (en : Int)) ≤ k.hi) := by omega
+          simp [this]
+    · obtain ⟨d, rfl⟩ : ∃ d : Nat, e = -((d : Int) + 1) := ⟨(-e - 1).toNat, by omega⟩
+      obtain ⟨hg, heq⟩ := small_case s m d hwf
+      rw [hg, heq]
+      have hneg : (-(-((d : Int) + 1))).toNat = d + 1 := by omega
+      have hnn : ¬ (-((d : Int) + 1) ≥ 0) := by omega
+      have hint : isIntegral m (-((d : Int) + 1)) = decide (m % 2^(d+1) = 0) := by
+        unfold isIntegral; rw [if_neg hnn, hneg]
+      simp only [Spec.exactInt?, hint]
+      by_cases hm0 : m % 2^(d+1) = 0
+      · simp only [hm0, decide_true, if_true]
+        have hta : truncAbs m (-((d : Int) + 1)) = m / 2^(d+1) := by
+          unfold truncAbs; rw [if_neg hnn, hneg]
+        have hle : m / 2^(d+1) ≤ m := Nat.div_le_self _ _
+        generalize hA : m / 2^(d+1) = a at *
+        have : truncInt (.fin s m (-((d : Int) + 1))) ≤ 2^63 - 1 := by
+          simp only [truncInt, hta]; cases s <;> simp <;> omega
+        exact convertFromInt_int true _ k (by simpa using this)
+      · simp [hm0]
+
+theorem exactInt_f32_f64 (x : FV) : Spec.exactInt? (.f32 x) = Spec.exactInt? (.f64 x) := rfl
+
+/-- **C16.numeric_exact.**  For every number Value (every Go payload kind, every double) and every numeric Go
+    parameter type, outside the three listed regions the call path (`convertNumeric`) delivers exactly the value
+    the property text demands or throws RangeError: no truncation, wrap or rounding for any width. -/
+theorem numeric_exact (v : Num) (t : NT) (hwf : WF v) (hdev : devNum v t = []) :
+    convertNumeric v t = Spec.convertNumeric v t := by
+  cases v with
+  | int k i => exact numeric_exact_int_source k i t hwf hdev
+  | f64 x =>
+    cases t with
+    | i k =>
+      have hd : k.signed = false → ∀ i, Spec.exactInt? (.f64 x) = some i → ¬ ((2^63 : Int) ≤ i ∧ i ≤ k.hi) := by
+        intro hs i hi hc
+        simp [devNum, Num.ty, hs, hi, hc] at hdev
+        omega
+      have := float_to_int_core x k hwf hd
+      simpa [convertNumeric, Num.ty] using this
+    | f64 => exact numeric_exact_float_to_float _ _ (by intro k i h; cases h) (by intro k h; cases h) hdev
+    | f32 => exact numeric_exact_float_to_float _ _ (by intro k i h; cases h) (by intro k h; cases h) hdev
+  | f32 x =>
+    cases t with
+    | i k =>
+      have hd : k.signed = false → ∀ i, Spec.exactInt? (.f64 x) = some i → ¬ ((2^63 : Int) ≤ i ∧ i ≤ k.hi) := by
+        intro hs i hi hc
+        rw [← exactInt_f32_f64] at hi
+        simp [devNum, Num.ty, hs, hi, hc] at hdev
+        omega
+      have := float_to_int_core x k hwf hd
+      have hsp : Spec.convertNumeric (.f32 x) (.i k) = Spec.convertNumeric (.f64 x) (.i k) := rfl
+      rw [hsp]
+      simpa [convertNumeric, Num.ty] using this
+    | f64 => exact numeric_exact_float_to_float _ _ (by intro k i h; cases h) (by intro k h; cases h) hdev
+    | f32 => exact numeric_exact_float_to_float _ _ (by intro k i h; cases h) (by intro k h; cases h) hdev
+
+/-- what "the same number" means for a delivered Go value -/
+def Denotes (v r : Num) : Prop :=
+  match r with
+  | .int _ i => Spec.exactInt? v = some i
+  | .f32 y => Spec.sameNumber v y = true
+  | .f64 y => Spec.sameNumber v y = true
+
+theorem sameNumber_self (x : FV) : Spec.sameNumber (.f64 x) x = true := by
+  cases x with
+  | nan => simp [Spec.sameNumber, isNaN]
+  | inf s => simp [Spec.sameNumber, eqNum, cmpReal]
+  | fin s m e => simp [Spec.sameNumber, eqNum, cmpReal]
+
+/-- the spec really is "exact or error": whenever it delivers a value, that value has the target type and
+    denotes the same number -/
+theorem spec_delivers_exact (v : Num) (t : NT) (r : Num) (h : Spec.convertNumeric v t = .ok r) :
+    r.ty = t ∧ Denotes v r := by
+  cases t with
+  | i k =>
+    simp only [Spec.convertNumeric] at h
+    split at h
+    · rename_i i hi
+      split at h
+      · cases h; exact ⟨rfl, hi⟩
+      · cases h
+    · cases h
+  | f64 =>
+    cases v with
+    | int k i =>
+      simp only [Spec.convertNumeric] at h
+      split at h
+      · rename_i hs; cases h; exact ⟨rfl, hs⟩
+      · cases h
+    | f64 x => simp only [Spec.convertNumeric] at h; cases h; exact ⟨rfl, sameNumber_self x⟩
+    | f32 x => simp only [Spec.convertNumeric] at h; cases h; exact ⟨rfl, sameNumber_self x⟩
+  | f32 =>
+    cases v with
+    | int k i =>
+      simp only [Spec.convertNumeric] at h
+      split at h
+      · rename_i hs; cases h; exact ⟨rfl, hs⟩
+      · cases h
+    | f64 x =>
+      simp only [Spec.convertNumeric] at h
+      split at h
+      · cases h
+      · split at h
+        · rename_i hs; cases h; exact ⟨rfl, hs⟩
+        · cases h
+    | f32 x => simp only [Spec.convertNumeric] at h; cases h; exact ⟨rfl, sameNumber_self x⟩
+
+/-- **C16.numeric_exact, consequence.**  Outside the listed regions a value that reaches the Go callee has the
+    parameter's type and denotes exactly the JavaScript number that was passed. -/
+theorem numeric_no_silent_change (v : Num) (t : NT) (r : Num) (hwf : WF v) (hdev : devNum v t = [])
+    (h : convertNumeric v t = .ok r) : r.ty = t ∧ Denotes v r := by
+  rw [numeric_exact v t hwf hdev] at h
+  exact spec_delivers_exact v t r h
+
+/-! ### arity and variadic shape (runtime.go:707-757) -/
+
+/-- **C16.arity** (fixed signatures): a wrong argument count is a RangeError, whatever the arguments are;
+    with the right count the callee receives the element-wise conversions. -/
+theorem arity_fixed (L : Leaf) (ins : List GT) (args : List JV) :
+    callWrapper L ⟨ins, false⟩ args =
+      if args.length ≠ ins.length then .rangeErr else convArgs L args ins := by
+  simp [callWrapper]
+
+/-- **C16.arity** (variadic signatures): fewer than the fixed parameters is a RangeError. -/
+theorem arity_variadic (L : Leaf) (ins : List GT) (args : List JV) (h : args.length < ins.length - 1) :
+    callWrapper L ⟨ins, true⟩ args = .rangeErr := by
+  simp [callWrapper, h]
+
+/-- **C16.variadic_shape**: with k ≠ 1 trailing arguments the variadic parameter is the slice of their
+    element-wise conversions, in order. -/
+theorem variadic_shape (L : Leaf) (ins : List GT) (args : List JV) (h : ¬ args.length < ins.length - 1)
+    (hk : (args.drop (ins.length - 1)).length ≠ 1) :
+    callWrapper L ⟨ins, true⟩ args =
+      (convArgs L (args.take (ins.length - 1)) (ins.take (ins.length - 1))).bind (fun fixed =>
+        (convAll L (args.drop (ins.length - 1)) (ins.getLastD .any)).map (fun gs => fixed ++ [.slice (GVs.ofList gs)])) := by
+  simp only [callWrapper, h, if_false, Bool.true_eq_false, not_true_eq_false, not_false_eq_true, if_true]
+  congr 1
+  funext fixed
+  cases hd : args.drop (ins.length - 1) with
+  | nil => rfl
+  | cons a rest =>
+    cases rest with
+    | nil => rw [hd] at hk; simp at hk
+    | cons b r => rfl
+
+/-- **C16.variadic_shape**, the "last argument is itself the slice" rule: exactly one trailing argument that
+    converts to `[]T` is passed through as the whole variadic slice (CallSlice). -/
+theorem variadic_last_is_slice (L : Leaf) (ins : List GT) (args : List JV) (a : JV) (s : GV)
+    (h : ¬ args.length < ins.length - 1) (hd : args.drop (ins.length - 1) = [a])
+    (hs : conv L a (.slice (ins.getLastD .any)) = .ok s) :
+    callWrapper L ⟨ins, true⟩ args =
+      (convArgs L (args.take (ins.length - 1)) (ins.take (ins.length - 1))).bind (fun fixed => .ok (fixed ++ [s])) := by
+  simp only [callWrapper, h, if_false, Bool.true_eq_false, not_true_eq_false, not_false_eq_true, if_true, hd, hs]
+
+/-! ### containers: aliasing invariant of bridged slices -/
+
+/-- steps that do not change either slice header (no append at `len`, no `length` change) -/
+def KeepsHeaders (len : Nat) : SOp → Prop
+  | .jsWrite i _ => i ≠ len
+  | .jsSetLen n => n = len
+  | .goAppend _ _ => False
+  | _ => True
+
+theorem write_hdr (s : SliceSt) (a i : Nat) (x : GV) :
+    (s.write a i x).go = s.go ∧ (s.write a i x).js = s.js ∧ (s.write a i x).et = s.et := by
+  simp [SliceSt.write]
+
+theorem step_keeps (S : StoreSem) (s : SliceSt) (op : SOp) (h : KeepsHeaders s.js.len op) :
+    (sliceStep S s op).1.go = s.go ∧ (sliceStep S s op).1.js = s.js := by
+  cases op with
+  | jsRead i => simp [sliceStep]
+  | jsLen => simp [sliceStep]
+  | goLen => simp [sliceStep]
+  | goRead i => simp [sliceStep]
+  | goWrite i x => simp only [sliceStep]; split <;> simp [SliceSt.write]
+  | goAppend x nc => exact absurd h (by simp [KeepsHeaders])
+  | jsWrite i v =>
+    simp only [KeepsHeaders] at h
+    simp only [sliceStep]
+    split
+    · by_cases h1 : i < s.js.len
+      · simp [h1, SliceSt.write]
+      · simp [h1, h]
+    all_goals simp
+  | jsSetLen n =>
+    simp only [KeepsHeaders] at h
+    simp [sliceStep, h]
+  | jsDelete i => simp only [sliceStep]; split <;> simp [SliceSt.write]
+
+/-- **C16.container_refines** (slices): as long as no step appends at `len` or changes `length`, the Go
+    variable and the JavaScript object keep the SAME slice header over the same backing array, so after any
+    history of reads, in-range writes and deletes from either side both observe identical contents.
+    (Holds for the code's store semantics and for the spec's.) -/
+theorem slice_history_aliased (S : StoreSem) (ops : List SOp) :
+    ∀ (s : SliceSt), s.go = s.js → (∀ op ∈ ops, KeepsHeaders s.js.len op) →
+      (sliceRun S s ops).1.go = (sliceRun S s ops).1.js ∧
+      (sliceRun S s ops).1.view (sliceRun S s ops).1.go = (sliceRun S s ops).1.view (sliceRun S s ops).1.js := by
+  induction ops with
+  | nil => intro s h _; simp [sliceRun, h]
+  | cons op rest ih =>
+    intro s h hk
+    have h1 := step_keeps S s op (hk op (by simp))
+    simp only [sliceRun]
+    split
+    · -- failing step: state after the step
+      rw [h1.1, h1.2, h]
+      simp
+    · have hs : (sliceStep S s op).1.go = (sliceStep S s op).1.js := by rw [h1.1, h1.2, h]
+      have hk' : ∀ o ∈ rest, KeepsHeaders (sliceStep S s op).1.js.len o := by
+        intro o ho; rw [h1.2]; exact hk o (by simp [ho])
+      exact ih _ hs hk'
+
+def intOf : GV → Option Int
+  | .num (.int _ i) => some i
+  | _ => none
+
+/-- the hypothesis is needed: appending through the JavaScript object beyond capacity detaches it from the
+    Go slice (Go slice semantics) – a later write is seen on one side only -/
+example :
+    ((sliceRun modelStore (SliceSt.init (.num (.i .int)) [.num (.int .int 1)] 1)
+        [.jsWrite 1 (.num (.int .i64 2)), .jsWrite 0 (.num (.int .i64 9))]).1.view ⟨0, 1, 1⟩)[0]?.bind intOf = some 1 ∧
+    ((sliceRun modelStore (SliceSt.init (.num (.i .int)) [.num (.int .int 1)] 1)
+        [.jsWrite 1 (.num (.int .i64 2)), .jsWrite 0 (.num (.int .i64 9))]).1.view ⟨1, 2, 2⟩)[0]?.bind intOf = some 9 := by
+  decide
+
+/-! ### struct field lookup -/
+
+theorem visible_eq (n : Str) : Spec.visible n = validGoStructName n := by
+  cases n <;> rfl
+
+theorem find_map_cons (i : Nat) (l : List (Str × List Nat)) (name : Str) :
+    ((l.map (fun b => (b.1, i :: b.2))).find? (fun b => b.1 = name)).map (·.2) =
+      ((l.find? (fun b => b.1 = name)).map (·.2)).map (i :: ·) := by
+  rw [List.find?_map]
+  simp [Function.comp_def, Option.map_map]
+
+mutual
+theorem lookupT (t : GT) (name : Str) :
+    fieldIndexT t name = ((Spec.bindingsT t).find? (fun b => b.1 = name)).map (·.2) := by
+  cases t with
+  | struct fs => simp only [fieldIndexT, Spec.bindingsT]; exact lookupF fs 0 name
+  | bool => simp [fieldIndexT, Spec.bindingsT]
+  | num t => simp [fieldIndexT, Spec.bindingsT]
+  | str => simp [fieldIndexT, Spec.bindingsT]
+  | any => simp [fieldIndexT, Spec.bindingsT]
+  | slice e => simp [fieldIndexT, Spec.bindingsT]
+  | map e => simp [fieldIndexT, Spec.bindingsT]
+  | ptr e => simp [fieldIndexT, Spec.bindingsT]
+theorem lookupF (fs : Fields) (i : Nat) (name : Str) :
+    fieldIndexF fs i name = ((Spec.bindingsF fs i).find? (fun b => b.1 = name)).map (·.2) := by
+  cases fs with
+  | nil => simp [fieldIndexF, Spec.bindingsF]
+  | cons fname tag anon ty rest =>
+    have ihr := lookupF rest (i+1) name
+    have iht := lookupT ty name
+    simp only [fieldIndexF, Spec.bindingsF, visible_eq]
+    by_cases hv : validGoStructName fname = true
+    · simp only [hv, Bool.not_true, Bool.false_eq_true, if_false]
+      rw [List.find?_append, List.find?_append]
+      cases anon with
+      | false =>
+        simp only [Bool.false_eq_true, if_false, List.find?_nil, Option.none_or]
+        by_cases hd : tag = [45]
+        · subst hd; simp [dash, ihr]
+        · by_cases ht : tag = []
+          · subst ht
+            by_cases hn : fname = name
+            · simp [dash, hn]
+            · simp [dash, hn, ihr]
+          · by_cases htn : tag = name
+            · simp [dash, htn, show ¬ name = [45] from htn ▸ hd, show ¬ name = [] from htn ▸ ht]
+            · by_cases hn : fname = name
+              · simp [dash, hd, ht, htn, hn]
+              · simp [dash, hd, ht, htn, hn, ihr]
+      | true =>
+        simp only [if_true]
+        rw [iht]
+        cases hfe : (Spec.bindingsT ty).find? (fun b => b.1 = name) with
+        | some b =>
+          have := find_map_cons i (Spec.bindingsT ty) name
+          rw [hfe] at this
+          cases hm : (List.map (fun b => (b.1, i :: b.2)) (Spec.bindingsT ty)).find? (fun b => b.1 = name) with
+          | none => rw [hm] at this; simp at this
+          | some c => rw [hm] at this; simp at this; simp [this]
+        | none =>
+          have := find_map_cons i (Spec.bindingsT ty) name
+          rw [hfe] at this
+          cases hm : (List.map (fun b => (b.1, i :: b.2)) (Spec.bindingsT ty)).find? (fun b => b.1 = name) with
+          | some c => rw [hm] at this; simp at this
+          | none =>
+            simp only [Option.map_none, Option.none_or]
+            by_cases hd : tag = [45]
+            · subst hd; simp [dash, ihr]
+            · by_cases ht : tag = []
+              · subst ht
+                by_cases hn : fname = name
+                · simp [dash, hn]
+                · simp [dash, hn, ihr]
+              · by_cases htn : tag = name
+                · simp [dash, htn, show ¬ name = [45] from htn ▸ hd, show ¬ name = [] from htn ▸ ht]
+                · by_cases hn : fname = name
+                  · simp [dash, hd, ht, htn, hn]
+                  · simp [dash, hd, ht, htn, hn, ihr]
+    · simp only [hv, Bool.not_false, if_true]
+      simpa using ihr
+end
+
+/-- **C16.struct_lookup**: for every struct type description, `fieldIndexByName` resolves a property name to
+    the first binding, in declaration order with embedded structs searched depth-first, among
+    {json tag, Go field name} of the fields whose Go name starts with A-Z (unexported names are hidden; a
+    `json:"-"` field contributes only its embedded bindings). -/
+theorem struct_lookup (t : GT) (name : Str) : fieldIndexByName t name = Spec.fieldLookup t name := by
+  simp only [fieldIndexByName, Spec.fieldLookup]
+  exact lookupT t.base name
+
+/-! ### kernel-checked witnesses: every deviation region is inhabited and the model really deviates there -/
+
+/-- 0.1 as a double -/
+def d0_1 : FV := .fin false 7205759403792794 (-56)
+
+-- call_f64_to_f32_rounds: f32fn(0.1) is rounded, the property demands RangeError
+example : devNum (.f64 d0_1) .f32 = ["call_f64_to_f32_rounds"] ∧
+    convertNumeric (.f64 d0_1) .f32 = .ok (.f32 (.fin false 13421773 (-27))) ∧
+    Spec.convertNumeric (.f64 d0_1) .f32 = .rangeErr := by decide
+
+-- call_int_to_float_rounds: f64fn(9007199254740993) receives 9007199254740992
+example : devNum (.int .i64 9007199254740993) .f64 = ["call_int_to_float_rounds"] ∧
+    convertNumeric (.int .i64 9007199254740993) .f64 = .ok (.f64 (.fin false 4503599627370496 1)) ∧
+    Spec.convertNumeric (.int .i64 9007199254740993) .f64 = .rangeErr := by decide
+
+-- call_float_ge_2p63_to_uint_rejected: u64fn(2^63) throws although 2^63 is a uint64
+example : devNum (.f64 (.fin false 1 63)) (.i .u64) = ["call_float_ge_2p63_to_uint_rejected"] ∧
+    convertNumeric (.f64 (.fin false 1 63)) (.i .u64) = .rangeErr ∧
+    Spec.convertNumeric (.f64 (.fin false 1 63)) (.i .u64) = .ok (.int .u64 9223372036854775808) := by decide
+
+/-- outcome class and integer payload of a result (GV has no decidable equality) -/
+def resKind : Res GV → Nat × Option Int
+  | .ok (.num (.int _ i)) => (0, some i)
+  | .ok _ => (0, none)
+  | .rangeErr => (1, none)
+  | .typeErr => (2, none)
+  | .goPanic => (3, none)
+
+def intT : GT := .num (.i .int)
+
+-- store_negative_fraction_truncates: s[0] = -1.5 on []int stores -1
+example : devStore (.num (.f64 (.fin true 3 (-1)))) intT = ["store_negative_fraction_truncates"] ∧
+    resKind (toReflectValue (.num (.f64 (.fin true 3 (-1)))) intT) = (0, some (-1)) ∧
+    resKind (Spec.convertCallParameter (.num (.f64 (.fin true 3 (-1)))) intT) = (1, none) := by decide
+
+-- store_error_is_go_panic: s[0] = 1.5 on []int is a Go panic, not a RangeError
+example : devStore (.num (.f64 (.fin false 3 (-1)))) intT = ["store_error_is_go_panic"] ∧
+    resKind (toReflectValue (.num (.f64 (.fin false 3 (-1)))) intT) = (3, none) ∧
+    resKind (Spec.convertCallParameter (.num (.f64 (.fin false 3 (-1)))) intT) = (1, none) := by decide
+
+-- store_nan_becomes_zero
+example : devStore (.num (.f64 .nan)) intT = ["store_nan_becomes_zero"] ∧
+    resKind (toReflectValue (.num (.f64 .nan)) intT) = (0, some 0) ∧
+    resKind (Spec.convertCallParameter (.num (.f64 .nan)) intT) = (1, none) := by decide
+
+-- store_2p63_wraps: s[0] = 2^63 on []int stores MinInt64
+example : devStore (.num (.f64 (.fin false 1 63))) intT = ["store_2p63_wraps"] ∧
+    resKind (toReflectValue (.num (.f64 (.fin false 1 63))) intT) = (0, some (-9223372036854775808)) ∧
+    resKind (Spec.convertCallParameter (.num (.f64 (.fin false 1 63))) intT) = (1, none) := by decide
+
+-- store_coerces_non_number: s[0] = true stores 1, the call path throws TypeError
+example : devStore (.bool true) intT = ["store_coerces_non_number"] ∧
+    resKind (toReflectValue (.bool true) intT) = (0, some 1) ∧
+    resKind (Spec.convertCallParameter (.bool true) intT) = (2, none) := by decide
+
+-- store_float32_value_go_panic
+example : devStore (.num (.f32 one)) intT = ["store_float32_value_go_panic"] ∧
+    resKind (toReflectValue (.num (.f32 one)) intT) = (3, none) ∧
+    resKind (Spec.convertCallParameter (.num (.f32 one)) intT) = (0, some 1) := by decide
+
+-- store_int_via_float_rounds: s[0] = 9007199254740993 on []int64 stores 9007199254740992
+example : devStore (.num (.int .i64 9007199254740993)) (.num (.i .i64)) = ["store_int_via_float_rounds"] ∧
+    resKind (toReflectValue (.num (.int .i64 9007199254740993)) (.num (.i .i64))) = (0, some 9007199254740992) ∧
+    resKind (Spec.convertCallParameter (.num (.int .i64 9007199254740993)) (.num (.i .i64))) = (0, some 9007199254740993) := by decide
+
+-- store_nil_into_interface_go_panic
+example : devStore .undef .any = ["store_nil_into_interface_go_panic"] ∧
+    resKind (toReflectValue .undef .any) = (3, none) ∧ resKind (Spec.convertCallParameter .undef .any) = (0, none) := by decide
+
+-- call_array_hole_becomes_zero: intSliceFn([1,,3])
+example : devConv (.arr (.cons (.num (.int .i64 1)) (.hole .nil))) (.slice intT) = ["call_array_hole_becomes_zero"] ∧
+    resKind (convertCallParameter (.arr (.cons (.num (.int .i64 1)) (.hole .nil))) (.slice intT)) = (0, none) ∧
+    resKind (Spec.convertCallParameter (.arr (.cons (.num (.int .i64 1)) (.hole .nil))) (.slice intT)) = (2, none) := by decide
+
+-- call_pointer_to_interface_go_panic
+example : devConv (.num (.int .i64 5)) (.ptr .any) = ["call_pointer_to_interface_go_panic"] ∧
+    resKind (convertCallParameter (.num (.int .i64 5)) (.ptr .any)) = (3, none) ∧
+    resKind (Spec.convertCallParameter (.num (.int .i64 5)) (.ptr .any)) = (0, none) := by decide
+
+-- call_number_to_string_gofmt: strFn(1000000*1) receives "1e+06"
+example : devConv (.num (.f64 (.fin false 1000000 0))) .str = ["call_number_to_string_gofmt"] ∧
+    goFmtV (.f64 (.fin false 1000000 0)) = some [49, 101, 43, 48, 54] ∧
+    jsNumToString (.f64 (.fin false 1000000 0)) = some [49, 48, 48, 48, 48, 48, 48] := by decide
+
+-- non-vacuity of numeric_exact: ordinary calls meet its hypotheses
+example : WF (.f64 (.fin false 5 0)) ∧ devNum (.f64 (.fin false 5 0)) (.i .i8) = [] ∧
+    convertNumeric (.f64 (.fin false 5 0)) (.i .i8) = .ok (.int .i8 5) := by
+  refine ⟨by simp [WF, WFf], by decide, by decide⟩
 
 end OttoVerif.C16.Thm
